@@ -136,8 +136,16 @@ pub fn check_final(run: &Run, l: &mut Local, text: &str, t: &Target, fv: usize, 
         };
         let c = canon(&o.outcome);
         if let Some(d) = diff(&rc, &c) {
+            if super::bare_tag_position_only(text, &d) {
+                run.count("unspecified/bare-tag-handle-error-position", 1);
+                continue;
+            }
+            let reader = matches!(e, Entry::FromReader | Entry::WithDeReader);
             run.violation_capped(
-                &format!("C09:{}:{}:finalisation", e.name(), d),
+                &match super::bare_tag_class(text, &rc, &c) {
+                    Some(sig) if reader => sig.to_string(),
+                    _ => format!("C09:{}:{}:finalisation", e.name(), d),
+                },
                 case(e, ch),
                 format!("from_str: {} | {}: {}", show_c(&rc), e.name(), show_c(&c)),
             );
